@@ -8,9 +8,9 @@ static int sgn(int x) { return (x > 0) - (x < 0); }
 int main(int argc, char **argv)
 {
     r_init(argc, argv);
-    size_t na = (size_t) r_u64("na", 0) % 5, nb = (size_t) r_u64("nb", 0) % 5, n = (size_t) r_u64("n", 0) % 6;
+    size_t na = (size_t) r_u64("na", 0) % 7, nb = (size_t) r_u64("nb", 0) % 7, n = (size_t) r_u64("n", 0) % 8;
     char *ta = (char*) malloc(na + 1), *tb = (char*) malloc(nb + 1);
-    const char *an[4] = {"a0", "a1", "a2", "a3"}, *bn[4] = {"b0", "b1", "b2", "b3"};
+    const char *an[6] = {"a0", "a1", "a2", "a3", "a4", "a5"}, *bn[6] = {"b0", "b1", "b2", "b3", "b4", "b5"};
     for (size_t i = 0; i < na; i++) { ta[i] = (char) r_u64(an[i], 'x'); if (!ta[i]) ta[i] = 'x'; }
     for (size_t i = 0; i < nb; i++) { tb[i] = (char) r_u64(bn[i], 'x'); if (!tb[i]) tb[i] = 'x'; }
     ta[na] = 0; tb[nb] = 0;
